@@ -209,6 +209,16 @@ func Worker(d Driver, o WorkerOpts, stdout io.Writer) {
 		}
 	}
 	if o.OutDir != "" {
+		// an earlier segment of the same slot may have left bitmaps: accumulate
+		for _, x := range []struct {
+			b    *bitmap
+			kind string
+		}{{keys, "keys"}, {states, "states"}, {scheds, "scheds"}} {
+			old := newBitmap(log2)
+			if old.read(filepath.Join(o.OutDir, o.Tag+"."+x.kind)) == nil {
+				x.b.or(old)
+			}
+		}
 		keys.write(filepath.Join(o.OutDir, o.Tag+".keys"))
 		states.write(filepath.Join(o.OutDir, o.Tag+".states"))
 		scheds.write(filepath.Join(o.OutDir, o.Tag+".scheds"))
